@@ -4,7 +4,7 @@ oracle on announced payload), -tso (store buffers; variant=tso harness builds), 
 
 COMMON_ASSUMPTIONS = [
     "scheduling points are all std::atomic operations, futex/pthread/yield calls and harness markers; plain accesses are assumed ordered by them (payload checked separately by the happens-before oracle where -hb is listed)",
-    "sequentially consistent execution of atomics unless the leg lists -tso (x86-TSO store buffers); weaker hardware models are not simulated",
+    "sequentially consistent execution of atomics unless the leg lists -tso (x86-TSO: a non-seq_cst atomic store may stay in a per-thread FIFO buffer at one deviation, a forced drain is a scheduling point; plain stores are not buffered); weaker hardware models are not simulated",
     "exhaustive only within each leg's thread count, program, and deviation bound; executions run to completion",
     "oneTBB internal assertions are compiled out (shipped configuration); hooks H1-H3 (ONETBB_VERIF) replace pause/rdtsc loops by yield points",
 ]
@@ -55,6 +55,8 @@ def _c08():
             legs.append(leg("%s-%d" % (kind, i), "c08_mutex", (2, 3), {"kind": kind, "prog": pr}, flags=("-fp", "-hb"), what="%s: %s" % (kind, pr),
                             weight=3.0 if kind == "queuing_rw" else 1.0))
         legs.append(leg("%s-4t" % kind, "c08_mutex", (1, 2), {"kind": kind, "prog": "W|R|R|U"}, flags=("-fp", "-hb"), what="%s: four threads" % kind))
+    for kind, pr in [("spin", "W|W|t,W"), ("queuing", "W|W|t,W"), ("mutex", "W|W|W"), ("spin_rw", "W|R|U"), ("queuing_rw", "W|R|U"), ("rw", "W|R|U"), ("queuing_rw", "D|W|R")]:
+        legs.append(leg("%s-tso-%s" % (kind, pr.replace("|", "").replace(",", "")), "c08_mutex@tso", (2, 2), {"kind": kind, "prog": pr}, flags=("-fp", "-hb", "-tso"), what="%s: %s under x86-TSO store buffers" % (kind, pr)))
     return legs
 PROPS["C08"] = {
     "explanation": "2-4 threads run short lock programs (write/read sections, try-acquire, upgrade, downgrade) on one real mutex of each kind; "
@@ -183,6 +185,9 @@ def _c01():
         leg("deque-grow", "c01_deque", (3, 4), {"owner": "SSG", "prefill": 63, "presteal": 1, "thieves": 1, "steals": 2}, what="spawn grows (relocates) the pool while a thief is active"),
         leg("deque-empty", "c01_deque", (3, 4), {"owner": "GSG", "prefill": 1, "thieves": 1, "steals": 2}, what="pop of the last task vs steal, then respawn"),
     ]
+    for name, prm in [("tie", {"owner": "SG", "thieves": 2, "steals": 1}), ("basic", {"owner": "SSGSGG", "thieves": 1, "steals": 2}), ("compact", {"owner": "SSSSSSG", "prefill": 60, "presteal": 50, "thieves": 1, "steals": 2}),
+                      ("grow", {"owner": "SSG", "prefill": 63, "presteal": 1, "thieves": 1, "steals": 2}), ("empty", {"owner": "GSG", "prefill": 1, "thieves": 1, "steals": 2})]:
+        L.append(leg("deque-%s-tso" % name, "c01_deque@tso", (2, 3), prm, flags=("-fp", "-tso"), what="same under x86-TSO store buffers: a non-seq_cst store may stay invisible while other threads run (owner --tail / thief ++head write-read ordering)"))
     one_worker = [("tg", "task_group run/run/wait"), ("nested", "a body runs a further body into the group during the wait"), ("tree", "three-level chain of run()s"),
                   ("run_and_wait", "run_and_wait whose body runs more work"), ("handle", "task_handle / defer"), ("two_groups", "nested groups"),
                   ("pfor", "parallel_for over 4 elements, simple_partitioner (wait tree of fold_tree)"), ("pfor_auto", "parallel_for(0,5) auto_partitioner"),
@@ -211,6 +216,9 @@ def _c02():
                          ("mon-2-pred", {"sleepers": 2, "notify": "pred"}, (2, 3)), ("mon-2-abort", {"sleepers": 2, "notify": "abort"}, (2, 3)),
                          ("mon-1-two-notifiers", {"sleepers": 1, "notifiers": 2, "notify": "one"}, (3, 4)), ("mon-2-relaxed", {"sleepers": 2, "notify": "relaxed"}, (2, 3))]:
         L.append(leg(name, "c02_monitor", b, prm, what="concurrent_monitor: prepare/re-check/commit vs state change + notify (%s)" % prm["notify"]))
+    for name, prm, b in [("mon-1-one-tso", {"sleepers": 1, "notify": "one", "plainset": 1}, (3, 4)), ("mon-2-all-tso", {"sleepers": 2, "notify": "all", "plainset": 1}, (2, 3)),
+                         ("mon-2-pred-tso", {"sleepers": 2, "notify": "pred", "plainset": 1}, (2, 3)), ("mon-1-two-notifiers-tso", {"sleepers": 1, "notifiers": 2, "notify": "one"}, (2, 3))]:
+        L.append(leg(name, "c02_monitor@tso", b, prm, flags=("-fp", "-tso"), what="concurrent_monitor under x86-TSO store buffers; the condition is set by a plain store, so only the monitor's own fences order it before the wait-set test"))
     L.append(leg("bq-block", "c09_queue", (2, 3), {"prog": "P1,P2|Q,Q", "bounded": 1, "cap": 1}, what="concurrent_bounded_queue capacity 1: blocked push vs pop and blocked pop vs push"))
     L.append(leg("bq-3", "c09_queue", (2, 2), {"prog": "P1|P2|Q,Q", "bounded": 1, "cap": 1}, what="two blocked pushers, one popper"))
     L.append(leg("mutex-sleep", "c08_mutex", (2, 3), {"kind": "mutex", "prog": "W,W|W|W"}, what="tbb::mutex futex sleeping path"))
@@ -247,6 +255,9 @@ PROPS["C04"] = {
         leg("mid", "c04_ctx", (2, 3), {"kind": "mid"}, what="cancel(P) || bind C beneath P || bind D beneath R (D, R stay clean)"),
         leg("destroy", "c04_ctx", (2, 3), {"kind": "destroy"}, what="cancel(R) || bind C beneath P || destroy sibling X"),
         leg("deep", "c04_ctx", (2, 3), {"kind": "deep"}, what="cancel(R) || bind C beneath P || bind E beneath C"),
+        leg("grand-tso", "c04_ctx@tso", (2, 3), {"kind": "grand"}, flags=("-fp", "-tso"), what="cancel(R) || bind C beneath P under x86-TSO store buffers (epoch / may_have_children / state publication order)"),
+        leg("direct-tso", "c04_ctx@tso", (2, 3), {"kind": "direct"}, flags=("-fp", "-tso"), what="cancel(R) || bind D beneath R under store buffers"),
+        leg("both-tso", "c04_ctx@tso", (2, 2), {"kind": "both"}, flags=("-fp", "-tso"), what="three threads under store buffers"),
         leg("prebind", "c04_ctx", (3, 3), {"kind": "prebind"}, what="C cancelled before its first binding, then bound beneath a clean parent while cancel(S) propagates"),
     ],
 }
@@ -386,6 +397,7 @@ def _c07():
     L = [
         leg("vtbb-modes3", "c07_pipe", (4, 6), {"lmax": 3, "tmax": 3, "imax": 4, "pmax": 3}, flags=(), what="all 39 filter-mode sequences of length 1..3 x tokens 1..3 x items 0..4 x P 2..3 x item type (int in a void* / allocated object)", weight=2.0),
         leg("vtbb-modes4", "c07_pipe", (3, 4), {"lmax": 4, "tmax": 4, "imax": 5, "pmax": 3}, flags=(), what="all 120 filter-mode sequences of length 1..4 x tokens 1..4 x items 0..5", weight=2.0),
+        leg("vtbb-grow-far", "c07_pipe", (1, 2), {"grow": 2}, flags=(), what="items 0..m-1 (m=15..20, P=m+2 virtual workers) wait inside a filter until item m has passed: the first token parked at the next serial filter is >= 16 ahead, so the 4-slot ring must grow by several doublings at once", weight=2.0),
         leg("vtbb-grow", "c07_pipe", (3, 4), {"grow": 1}, flags=(), what="item 0 stalled inside a filter while 5-8 other stage tasks run: >= 4 tokens parked behind it, input_buffer::grow relocates parked items (tokens 5..7, items 6/9)", weight=2.0),
     ]
     rt = [("ipo", {}, (2, 3)), ("pio", {}, (2, 3)), ("ipi", {}, (2, 3)), ("oo", {}, (2, 3)), ("p", {}, (2, 3)), ("pp", {}, (2, 3)), ("ipi", {"big": 1}, (2, 3)), ("ipo", {"asleep": 1}, (2, 3)),
